@@ -125,7 +125,7 @@ int main(int argc, char** argv) {
         R.texts["closure " + kase] = reached_bound ? ("depth bound " + std::to_string(maxdepth) + " reached") : "closed: no new canonical state";
     }
     // ---- two field objects on the same phase space (as main() has a radiation field and a wake field): operations on one must not
-    //      change what the other returns.  Alphabet: P0,P1 | W,C on object A | w,c on object B; depth-bounded BFS with canonical hashing of BOTH
+    //      change what the other returns.  Alphabet: P0,P1 | W,C on object A | w,c on object B | x = B destroyed; depth-bounded BFS with canonical hashing of BOTH
     ZKIND = 0;
     for (auto& c : cfgs) {
         if (!(c.N == 16 || c.N == 33 || (T && c.N == 64))) continue;
@@ -148,19 +148,21 @@ int main(int argc, char** argv) {
             grab2(f, op == 0 ? 'W' : 'C', fresh2[p][ob][op]);
         }
         std::unordered_set<uint64_t> seen; std::deque<std::string> frontier; frontier.push_back("");
-        const char ops2[] = {'0', '1', 'W', 'C', 'w', 'c'};
+        const char ops2[] = {'0', '1', 'W', 'C', 'w', 'c', 'x'};     // x: object B is destroyed (its destructor tidies up the FFT library's global state) - A goes on
         while (!frontier.empty()) {
             std::string hist = frontier.front(); frontier.pop_front();
             if (hist.size() >= depth2) continue;
             for (char op : ops2) {
                 if (hist.empty() && !(op == '0' || op == '1')) continue;
+                const bool gone = hist.find('x') != std::string::npos;
+                if (gone && (op == 'w' || op == 'c' || op == 'x')) continue;      // B is destroyed once, and not used afterwards
                 std::string h2 = hist + op;
                 Rig r(c); set_impedance(r); auto B = mkB(r); int cur = -1;
-                for (char o : h2) { if (o == '0' || o == '1') apply_op(r, o, cur); else { ElectricField& f = (o == 'w' || o == 'c') ? *B : *r.f; if (o == 'W' || o == 'w') f.wakePotential(); else f.updateCSR(0); } }
+                for (char o : h2) { if (o == '0' || o == '1') apply_op(r, o, cur); else if (o == 'x') B.reset(); else { ElectricField& f = (o == 'w' || o == 'c') ? *B : *r.f; if (o == 'W' || o == 'w') f.wakePotential(); else f.updateCSR(0); } }
                 transitions++;
-                uint64_t k = hashf(*B, hashf(*r.f, mcx::fnv(&cur, 4)));
+                uint64_t k = B ? hashf(*B, hashf(*r.f, mcx::fnv(&cur, 4))) : hashf(*r.f, mcx::fnv(&cur, 4, 0x9e3779b97f4a7c15ull));
                 R.eval(kase + " history=" + h2, k, false);
-                if (op != '0' && op != '1') {
+                if (op != '0' && op != '1' && op != 'x') {
                     const int ob = (op == 'w' || op == 'c'), oi = (op == 'C' || op == 'c');
                     std::vector<float> o; grab2(ob ? *B : *r.f, oi ? 'C' : 'W', o);
                     if (!same(o, fresh2[cur][ob][oi])) { R.violate(std::string("C18/two-objects/") + (oi ? "csr" : "wake") + "-differs-from-fresh", kase, "after history " + h2 + " (capitals: object A, small letters: object B on the same phase space) the result differs from a fresh pair's"); continue; }
